@@ -685,3 +685,38 @@ def taint_closure(ast, seed):
         visit(ast)
         n += 1
     return T
+
+
+def is_constant_expr(t):
+    if not isinstance(t, tuple) or not t:
+        return False
+    if t[0] == 'num':
+        return True
+    if t[0] in ('bin', 'un', 'cast', 'cond'):
+        return all(is_constant_expr(x) for x in t[1:] if isinstance(x, tuple))
+    if t[0] == 'call' and t[1] == 'sizeof':
+        return True
+    return False
+
+
+def dead_arm_names(ast):
+    """C variable names (as the compiler spells them) of the operands that occur in the arms of a ?: whose
+    condition is a constant expression - the signature of the listed finding dead_arm_operand."""
+    out = set()
+    for n in subterms(ast):
+        if isinstance(n, tuple) and n and n[0] == 'cond' and is_constant_expr(n[1]):
+            for arm in n[2:4]:
+                for x in subterms(arm):
+                    if not isinstance(x, tuple) or not x:
+                        continue
+                    if x[0] == 'reg':
+                        out.add(x[1] + x[2] + ('_new' if x[3] else ''))
+                    elif x[0] == 'imm':
+                        out.add(x[1])
+                    elif x[0] == 'id':
+                        out.add(x[1])
+                    elif x[0] == 'xreg':
+                        out.add(x[1].replace(':', '_') + ('_new' if x[2] else ''))
+                    elif x[0] == 'alias':
+                        out.add(x[1].lower() + ('_new' if x[2] else ''))
+    return out
